@@ -12,7 +12,8 @@ EXTENDS TLJson
 CONSTANTS EmitEdges, \* TRUE: every value-graph transition is printed too (histories for C09)
           K,        \* value modifications per path
           KMut,     \* byte mutations are applied to values at depth < KMut
-          KJson     \* alternative / invalid JSON spellings are derived from values at depth < KJson
+          KJson,    \* alternative / invalid JSON spellings are derived from values at depth < KJson
+          KRe       \* non-minimal TL2 re-encodings are derived from values at depth < KRe
 
 VARIABLE st
 
@@ -46,7 +47,13 @@ StepJson == /\ st.kind = "val" /\ st.k < KJson
                  /\ WJ(st.tn, NoEnv, st.v, m) # WJ(st.tn, NoEnv, st.v, "canon")
                  /\ st' = [kind |-> "json", tn |-> st.tn, v |-> st.v, m |-> m, k |-> 0]
 
-Next == StepVal \/ StepMut \/ StepJson
+StepRe == /\ st.kind = "val" /\ st.k < KRe /\ TY(st.tn).tl2
+          /\ \/ \E m \in ReModes :
+                  /\ Enc2M(st.tn, st.v, FALSE, m) # Enc2(st.tn, st.v, FALSE)
+                  /\ st' = [kind |-> "reenc", tn |-> st.tn, v |-> st.v, m |-> m, k |-> 0]
+             \/ (~TY(st.tn).alias /\ st' = [kind |-> "reenc", tn |-> st.tn, v |-> st.v, m |-> "oversize", k |-> 0])
+
+Next == StepVal \/ StepMut \/ StepJson \/ StepRe
 
 View == [st EXCEPT !.k = 0]
 
@@ -57,6 +64,11 @@ DecOut(tn, b, boxed) ==
   IF ~r.ok THEN [ok |-> FALSE, unk |-> r.unk, consumed |-> 0, re |-> <<>>]
   ELSE [ok |-> TRUE, unk |-> FALSE, consumed |-> r.pos - 1, re |-> Bytes(Enc1(tn, NoEnv, r.v, ~boxed))]
 
+(* "oversize": the minimal encoding with its outermost declared size increased by one *)
+ReBytes ==
+  IF st.m # "oversize" THEN Enc2M(st.tn, st.v, FALSE, st.m)
+  ELSE LET e == Enc2(st.tn, st.v, FALSE) IN
+       IF e[1] < 253 THEN <<e[1] + 1>> \o SubSeq(e, 2, Len(e)) ELSE <<254, 255, 255>> \o SubSeq(e, 2, Len(e))
 Payload ==
   IF st.kind = "val"
   THEN [kind |-> "val", tn |-> st.tn, k |-> st.k, origin2 |-> TY(st.tn).origin2,
@@ -68,6 +80,11 @@ Payload ==
         hastl2 |-> TY(st.tn).tl2,
         tl2 |-> IF TY(st.tn).tl2 THEN Enc2(st.tn, st.v, FALSE) ELSE <<>>,
         json |-> WJ(st.tn, NoEnv, st.v, "canon")]
+  ELSE IF st.kind = "reenc"
+  THEN [kind |-> "reenc", tn |-> st.tn, m |-> st.m, origin2 |-> TY(st.tn).origin2, negzero |-> HasNegZero(st.tn, st.v),
+        b |-> ReBytes, accept |-> st.m # "oversize",
+        tl2 |-> Enc2(st.tn, st.v, FALSE),
+        tl1 |-> IF TY(st.tn).origin2 THEN <<>> ELSE Bytes(Enc1(st.tn, NoEnv, st.v, TRUE))]
   ELSE IF st.kind = "json"
   THEN [kind |-> "json", tn |-> st.tn, m |-> st.m, bad |-> st.m \in BadModes, negzero |-> HasNegZero(st.tn, st.v),
         alt |-> WJ(st.tn, NoEnv, st.v, st.m),
@@ -91,6 +108,12 @@ RoundTrip2 ==
     LET e == Enc2(st.tn, st.v, FALSE)
         d == Dec2(st.tn, e, 1, Len(e))
     IN d.ok /\ d.v = st.v /\ d.pos = Len(e) + 1
+(* every admissible re-encoding decodes to the same value; an oversized object is refused *)
+Reenc2Equivalent ==
+  st.kind = "reenc" =>
+    LET b == ReBytes  d == Dec2(st.tn, b, 1, Len(b)) IN
+    IF st.m = "oversize" THEN ~d.ok \/ TY(st.tn).alias
+    ELSE d.ok /\ d.v = st.v /\ d.pos = Len(b) + 1
 ValuesValid == st.kind = "val" /\ ~TY(st.tn).origin2 => Valid1(st.tn, NoEnv, st.v)
 (* whatever is accepted re-encodes, and the re-encoding decodes to the same value *)
 Canonical1 ==
